@@ -98,7 +98,11 @@ type hop struct {
 	DataID  int      `json:"data_id,omitempty"` // Render: > 0 = the caller's template data object with this number (shared between renderings)
 	Imgs    []imgArg `json:"imgs,omitempty"`
 	ToFile  bool     `json:"to_file,omitempty"`
+	HV      int      `json:"hv,omitempty"` // Render: which value the variable hv (used by some header/footer texts) is given
 }
+
+// hvValues: values of the variable that header and footer texts may hold a placeholder for - spliced into raw XML
+var hvValues = []string{"plain", "a<b&c>\"'", "ctl\x01only", "\x0bvt", "bad\xffutf", "", "{{hv}}", "]]>", "tab\there", "\ufffe", "é中"}
 
 // ---- images --------------------------------------------------------------------------------
 
@@ -684,6 +688,7 @@ func applyHop(regs []*docState, h hop, tmp string) (obs *saveObs, err error) {
 					data.SetImageFromData(fmt.Sprintf("img%d", a.Name), imageBytes(a.Fmt, a.Atom), nil)
 				}
 			}
+			data.SetVariable("hv", hvValues[h.HV%len(hvValues)])
 			return data
 		}
 		var data *document.TemplateData
@@ -705,6 +710,15 @@ func applyHop(regs []*docState, h hop, tmp string) (obs *saveObs, err error) {
 			return nil, fmt.Errorf("data_modified: rendering changed the template data it was given: %s -> %s", before, after)
 		}
 		ns := src.clone(nd)
+		hvNow := hvValues[h.HV%len(hvValues)]
+		if h.DataID > 0 {
+			if v, ok := data.Variables["hv"]; ok {
+				hvNow = fmt.Sprint(v) // a shared data object keeps the value it was built with
+			}
+		}
+		for k, v := range ns.hf {
+			ns.hf[k] = strings.ReplaceAll(v, "{{hv}}", hvNow)
+		}
 		for _, name := range src.phs {
 			if a, ok := have[name]; ok {
 				ns.images = append(ns.images, a.Atom)
@@ -1067,7 +1081,11 @@ func genHistory(r *rng, prop string) (foreign *foreignPkg, ops []hop) {
 			}
 			ops = append(ops, h)
 		case 1:
-			ops = append(ops, hop{Kind: "AddHF", R: reg, Footer: r.chance(50), HK: hkinds[r.intn(3)], Variant: r.intn(3), Text: fmt.Sprintf("hf%d %s", i, texts[r.intn(len(texts))])})
+			hfText := fmt.Sprintf("hf%d %s", i, texts[r.intn(len(texts))])
+			if r.chance(25) {
+				hfText += " {{hv}}" // a placeholder: a later rendering of this document as a template fills it in
+			}
+			ops = append(ops, hop{Kind: "AddHF", R: reg, Footer: r.chance(50), HK: hkinds[r.intn(3)], Variant: r.intn(3), Text: hfText})
 		case 2:
 			ops = append(ops, hop{Kind: "AddList", R: reg, Text: texts[r.intn(len(texts))], Variant: r.intn(3)})
 		case 3:
@@ -1089,7 +1107,7 @@ func genHistory(r *rng, prop string) (foreign *foreignPkg, ops []hop) {
 			if dst == reg {
 				dst = (dst + 1) % 3
 			}
-			h := hop{Kind: "Render", R: dst, Src: reg}
+			h := hop{Kind: "Render", R: dst, Src: reg, HV: r.intn(len(hvValues))}
 			// the caller's data: an object of this rendering alone, or one used for several renderings
 			var prevR []hop
 			for _, o := range ops {
